@@ -42,7 +42,7 @@ def generate(T, tier):
 pub const CAP_M_%(num)s: [u8; %(n)d] = [%(mb)s];
 /// hostile frame: %(nsat)d satellites x 31 recognised entries = %(tot)d entries > capacity 390, all bias bits symbolic
 #[kani::proof]
-#[kani::unwind(66)]
+#[kani::unwind(%(unw)d)]
 pub fn capacity_%(num)s() {
     use rtcm_rs::verif_hooks::dfs::df_msg%(num)s_biases as c;
     let sym: [u8; %(n)d] = kani::any();
@@ -58,7 +58,7 @@ pub fn capacity_%(num)s() {
         Err(_) => {}
     }
 }
-""" % {"num": num, "n": n, "tb": ", ".join(map(str, tb)), "mb": ", ".join(map(str, mb)), "nsat": nsat, "tot": nsat * 31})
+""" % {"num": num, "n": n, "tb": ", ".join(map(str, tb)), "mb": ", ".join(map(str, mb)), "nsat": nsat, "tot": nsat * 31, "unw": n + 2})
         hs.append({"name": "c16::capacity_%s" % num, "group": "cap", "tier": "quick" if num == "1059" else "thorough",
                    "bounds": "%s decode of a %d-byte payload announcing %d entries (capacity 390), bias bits symbolic: no panic, never more than 390 entries" % (num, n, nsat * 31)})
     for g in ("g1059_737", "g1059_377", "g1059_773", "g1059_555", "g1059_desc", "g1059_adj", "g1065_737", "g1065_377", "g1065_desc", "g1065_555"):
